@@ -23,6 +23,8 @@
 (*            implementation, items = <<id, off limb, crc pair>>; full =   *)
 (*            a listing of every entry (else: one lookup per name)         *)
 (*   depthcap for "git": the --depth given to pack-objects (-1: none)      *)
+(*   wr       the pack's entries were laid out by PackChunkGenerator (FALSE *)
+(*            for a stream a store ingested: its bytes are the sender's)   *)
 (*                                                                         *)
 (* Verdict: <<"VERDICT", tid, property clauses failed, shape clauses       *)
 (* failed, specification clauses failed, max delta chain depth>>.          *)
@@ -92,7 +94,7 @@ Judge(t) ==
         d == MaxDepth(Pk(t)) IN
     IF t.kind = "git"
     THEN << rd, <<>>, lay \o If(t.depthcap < 0 \/ d <= t.depthcap, "DepthCap"), d >>
-    ELSE << lay \o rd, WriterRule(Pk(t)), <<>>, d >>
+    ELSE << lay \o rd, IF t.wr THEN WriterRule(Pk(t)) ELSE <<>>, <<>>, d >>
 
 TraceInit == tid \in 1..Len(Traces) /\ ph = 0
 TraceNext ==
